@@ -141,6 +141,9 @@ func C11() int {
 	c.Set("strace_available", straceOK)
 	if straceOK {
 		states = append(states, c11State{"unreadable(EACCES injected on openat)", "unusable", func(dir, kp, key string) { wf(kp, key, 0o600) }})
+		// write-only for the invoking user (mode 0200 and no privilege to ignore it): the open for reading is refused,
+		// an open for writing would succeed - EACCES injected on the FIRST openat of the key path only
+		states = append(states, c11State{"unreadable-but-writable(EACCES injected on the first openat only)", "unusable", func(dir, kp, key string) { wf(kp, key, 0o600) }})
 	}
 	inputs := map[string][]string{}
 	secretsOf := map[string][]string{}
@@ -221,6 +224,9 @@ func C11() int {
 				run.Wrap = []string{"strace", "-f", "-y", "-s", "0", "-e", "trace=openat,write,close", "-o", stlog}
 				if strings.HasPrefix(jb.st.name, "unreadable") {
 					run.Wrap = []string{"strace", "-f", "-y", "-s", "0", "-P", kp, "-e", "trace=openat", "-e", "inject=openat:error=EACCES", "-o", stlog}
+				}
+				if strings.HasPrefix(jb.st.name, "unreadable-but-writable") {
+					run.Wrap = []string{"strace", "-f", "-y", "-s", "0", "-P", kp, "-e", "trace=openat", "-e", "inject=openat:error=EACCES:when=1", "-o", stlog}
 				}
 			}
 			r := s.CLI(run)
